@@ -1,4 +1,254 @@
-import Crs.Assemble
+/-
+  C01 — the generated regex matches exactly what the plain reading of the program matches.
+
+  PARTIAL. What is proved here is the *structure layer*: the flat, line-by-line stack machine of `Operator.assemble`
+  (processor stack, `startPreprocessor`, `endPreprocessor`, `Consume`) computes exactly what a recursive tree
+  evaluator computes that has no stack at all — a block's body is evaluated in a fresh processor of its own and its
+  completed result is handed to the enclosing processor as lines (`C01_assemble_refines_tree`, for every engine,
+  configuration, stash and every well-nested program of any depth), hence `generate` is the tree evaluation followed by
+  `complete` (`C01_generate_is_tree_evaluation`); plus the equations of the plain reading the evaluator satisfies:
+  entries accumulate into a segment (`C01_entries_accumulate`), a segment is closed into `(?:` join of its entries `)`
+  and appended to what came before (`C01_mark_closes_segment`), a stored name holds the concatenation so far and a
+  recall appends it (`C01_store`, `C01_recall`), a finished block hands over `(?:output)(?:segment)`
+  (`C01_block_result`).
+  NOT proved: that the text so built *denotes* the union / concatenation the plain reading prescribes, and that the
+  final simplification and the six clean-up passes preserve the language. That needs a semantics of regex text and
+  laws of the external engine (rassemble-go, Go regexp/syntax); it is evaluated on the implementation by the language
+  oracle (plain.go, reoracle.go), with the engine-caused exceptions D17, D24, D25, D26 listed as known findings.
+-/
+import Crs.Tree
+import CrsProofs.Tree
 namespace Crs.Props
-theorem C01_placeholder : True := trivial
+open Crs Crs.Pat Crs.Asm Crs.Tree
+
+/-- **C01 (structure).** On every well-nested program the stack machine and the tree evaluator agree: same stash,
+    same top-level processor, same fault — for every engine and configuration. -/
+theorem C01_assemble_refines_tree (E : Engine) (cfg : Config) (items : List Item) (hw : wfItems items = true)
+    (st : Stash) (cur : Proc) :
+    runLines E cfg st [cur] (flattenItems items) =
+      (match evalItems E cfg st cur items with
+       | .error e => .error e
+       | .ok (st', cur') => .ok (st', [cur'])) := by
+  have := runLines_items E cfg items hw st cur [] []
+  simp only [List.append_nil] at this
+  rw [this]
+  cases evalItems E cfg st cur items with
+  | error e => rfl
+  | ok r => obtain ⟨a, b⟩ := r; simp [runLines]
+
+/-- `generate` in tree form: parse, evaluate the tree, complete -/
+def generateTree (E : Engine) (cfg : Config) (flags : List Char) (prefixes suffixes : List Bytes) (items : List Item) : Except Fault Bytes :=
+  match evalItems E cfg [] (.assemble [] []) items with
+  | .error e => .error e
+  | .ok (stash, top) =>
+    match procComplete E top with
+    | .error e => .error e
+    | .ok lines => complete E stash flags prefixes suffixes lines
+
+/-- **C01 (generate is the tree evaluation).** Whenever the parsed text of a program is the flattening of a
+    well-nested item tree, `generate` returns what the tree evaluation returns. -/
+theorem C01_generate_is_tree_evaluation (E : Engine) (fs : Parser.Fs) (cfg : Config) (o1 o2 : Parser.Ord) (input : Bytes)
+    (pst : Parser.PState) (items : List Item)
+    (hparse : Parser.parse fs o1 o2 Parser.defaultFuel [] input = .ok pst)
+    (hitems : scanLines pst.out = flattenItems items) (hw : wfItems items = true) :
+    generate E fs cfg o1 o2 input = generateTree E cfg pst.flags pst.prefixes pst.suffixes items := by
+  unfold generate generateTree
+  rw [hparse]
+  simp only [hitems, C01_assemble_refines_tree E cfg items hw [] (.assemble [] [])]
+  cases evalItems E cfg [] (.assemble [] []) items with
+  | error e => rfl
+  | ok r =>
+    obtain ⟨stash, top⟩ := r
+    simp only
+    cases procComplete E top with
+    | error e => rfl
+    | ok lines =>
+      simp only
+      cases complete E stash pst.flags pst.prefixes pst.suffixes lines with
+      | error e => rfl
+      | ok r => simp
+
+/-! ### the equations of the plain reading -/
+
+def isEntry (l : Bytes) : Bool := (assembleInput? l).isNone && (assembleOutput? l).isNone
+
+/-- entries accumulate into the current segment, nothing else changes -/
+theorem C01_entries_accumulate (E : Engine) (cfg : Config) (st : Stash) (ls : List Bytes) (out : Bytes) (es : List Bytes)
+    (he : ∀ e ∈ es, isEntry e = true) :
+    evalItems E cfg st (.assemble ls out) (es.map Item.line) = .ok (st, .assemble (ls ++ es) out) := by
+  induction es generalizing ls with
+  | nil => simp [evalItems]
+  | cons e es ih =>
+    have h := he e (by simp)
+    simp only [isEntry, Bool.and_eq_true, Option.isNone_iff_eq_none] at h
+    simp only [List.map_cons, evalItems, evalItem, procLine, assembleLine, h.1, h.2]
+    rw [ih (ls ++ [e]) (fun x hx => he x (by simp [hx]))]
+    simp [List.append_assoc]
+
+/-- `##!=>` closes a segment of two or more entries: the group of their join is appended to the text so far -/
+theorem C01_mark_closes_segment (E : Engine) (cfg : Config) (st : Stash) (e1 e2 : Bytes) (es : List Bytes) (out joined : Bytes)
+    (hj : E.join (e1 :: e2 :: es) = .ok joined) :
+    evalItem E cfg st (.assemble (e1 :: e2 :: es) out) (.line b!"##!=>") =
+      .ok (st, .assemble [] (out ++ b!"(?:" ++ joined ++ b!")")) := by
+  have h1 : assembleInput? b!"##!=>" = none := by decide
+  have h2 : assembleOutput? b!"##!=>" = some [] := by decide
+  simp [evalItem, procLine, assembleLine, h1, h2, appendPlain, runAssemble, hj, List.append_assoc]
+
+/-- `##!=< name` stores the text so far (with the open segment closed) under the name and starts afresh -/
+theorem C01_store (E : Engine) (cfg : Config) (st : Stash) (out : Bytes) :
+    evalItem E cfg st (.assemble [] out) (.line b!"##!=< name") =
+      .ok (st.set b!"name" out, .assemble [] []) := by
+  have h1 : assembleInput? b!"##!=< name" = some b!"name" := by decide
+  simp [evalItem, procLine, assembleLine, h1, appendPlain, runAssemble]
+
+/-- `##!=> name` appends what was stored under the name -/
+theorem C01_recall (E : Engine) (cfg : Config) (st : Stash) (out stored : Bytes)
+    (hs : Parser.assocLookup b!"name" st = some stored) :
+    evalItem E cfg st (.assemble [] out) (.line b!"##!=> name") = .ok (st, .assemble [] (out ++ stored)) := by
+  have h1 : assembleInput? b!"##!=> name" = none := by decide
+  have h2 : assembleOutput? b!"##!=> name" = some b!"name" := by decide
+  simp [evalItem, procLine, assembleLine, h1, h2, appendPlain, runAssemble, hs]
+
+/-- a finished assemble block hands its parent one line: `(?:text so far)(?:join of the open segment)`;
+    the parent treats that line as an entry -/
+theorem C01_block_result (E : Engine) (e1 : Bytes) (es : List Bytes) (out joined : Bytes)
+    (hj : E.join (e1 :: es) = .ok joined) (ho : out ≠ []) :
+    procComplete E (.assemble (e1 :: es) out) = .ok [b!"(?:" ++ out ++ b!")(?:(?:" ++ joined ++ b!"))"] := by
+  have : out.isEmpty = false := by cases out with | nil => exact absurd rfl ho | cons _ _ => rfl
+  simp [procComplete, runAssemble, hj, wrapCompleted, this]
+
+/-! ### language layer, under explicit hypotheses about the external engine (hypotheses, never axioms)
+
+  `den t` is the language the engine's parser gives the text `t` (none: does not parse). Two laws are assumed of the
+  engine, as a structure the theorem quantifies over:
+  (J) a successful `join` of lines denotes the union of what the lines denote;
+  (G) a concatenation of groups `(?:t₁)(?:t₂)…` denotes the product of what the `tᵢ` denote.
+  Under them, a block of segments separated by `##!=>` hands its parent a line denoting the product over the segments
+  of the union over each segment's entries — the plain reading of that block — for any number of segments and entries. -/
+
+abbrev Lang := List Char → Prop
+
+/-- two lists related element by element, in order -/
+inductive Zip {α β} (R : α → β → Prop) : List α → List β → Prop where
+  | nil : Zip R [] []
+  | cons {a b as bs} : R a b → Zip R as bs → Zip R (a :: as) (b :: bs)
+
+def Lang.union (Ls : List Lang) : Lang := fun w => ∃ L ∈ Ls, L w
+def Lang.concat (A B : Lang) : Lang := fun w => ∃ u v, w = u ++ v ∧ A u ∧ B v
+def Lang.prod : List Lang → Lang
+  | [] => fun w => w = []
+  | L :: Ls => Lang.concat L (Lang.prod Ls)
+
+def group (t : Bytes) : Bytes := b!"(?:" ++ t ++ b!")"
+
+structure EngineSem (E : Engine) where
+  den : Bytes → Option Lang
+  join_den : ∀ (ls : List Bytes) (t : Bytes), E.join ls = .ok t → ∃ Ls, ls.mapM den = some Ls ∧ den t = some (Lang.union Ls)
+  groups_den : ∀ (ts : List Bytes) (Ls : List Lang), ts.mapM den = some Ls → den ((ts.map group).flatten) = some (Lang.prod Ls)
+
+/-- the items of a block made of segments, each closed by `##!=>` -/
+def segmentItems : List (List Bytes) → List Item
+  | [] => []
+  | seg :: rest => seg.map Item.line ++ [Item.line b!"##!=>"] ++ segmentItems rest
+
+theorem evalItems_append (E : Engine) (cfg : Config) (st : Stash) (p : Proc) (a b : List Item) :
+    evalItems E cfg st p (a ++ b) =
+      (match evalItems E cfg st p a with
+       | .error e => .error e
+       | .ok (st', p') => evalItems E cfg st' p' b) := by
+  induction a generalizing st p with
+  | nil => simp [evalItems]
+  | cons i is ih =>
+    simp only [List.cons_append, evalItems]
+    cases evalItem E cfg st p i with
+    | error e => rfl
+    | ok r => obtain ⟨st', p'⟩ := r; exact ih st' p'
+
+/-- closing a non-empty segment of entries appends the group of its join -/
+theorem mark_closes (E : Engine) (cfg : Config) (st : Stash) (seg : List Bytes) (out joined : Bytes)
+    (hne : seg ≠ []) (hj : E.join seg = .ok joined) :
+    evalItem E cfg st (.assemble seg out) (.line b!"##!=>") = .ok (st, .assemble [] (out ++ group joined)) := by
+  have h1 : assembleInput? b!"##!=>" = none := by decide
+  have h2 : assembleOutput? b!"##!=>" = some [] := by decide
+  have hemp : seg.isEmpty = false := by cases seg with | nil => exact absurd rfl hne | cons _ _ => rfl
+  cases seg with
+  | nil => exact absurd rfl hne
+  | cons e es =>
+    cases es with
+    | nil =>
+      simp [evalItem, procLine, assembleLine, h1, h2, appendPlain, runAssemble, hj, group, List.append_assoc]
+    | cons e2 es =>
+      simp [evalItem, procLine, assembleLine, h1, h2, appendPlain, runAssemble, hj, group, List.append_assoc]
+
+/-- running the segments: the text so far grows by one group per segment -/
+theorem evalItems_segments (E : Engine) (cfg : Config) (st : Stash) (segs : List (List Bytes)) (joins : List Bytes) (out : Bytes)
+    (hent : ∀ seg ∈ segs, seg ≠ [] ∧ ∀ e ∈ seg, isEntry e = true)
+    (hj : Zip (fun seg j => E.join seg = .ok j) segs joins) :
+    evalItems E cfg st (.assemble [] out) (segmentItems segs) = .ok (st, .assemble [] (out ++ (joins.map group).flatten)) := by
+  induction hj generalizing out with
+  | nil => simp [segmentItems, evalItems]
+  | @cons seg j segs' joins' hseg _ ih =>
+    obtain ⟨hne, he⟩ := hent seg (by simp)
+    simp only [segmentItems, List.append_assoc]
+    rw [evalItems_append, C01_entries_accumulate E cfg st [] out seg he]
+    simp only [List.nil_append, List.cons_append, evalItems, mark_closes E cfg st seg out j hne hseg]
+    rw [ih (out ++ group j) (fun s hs => hent s (by simp [hs]))]
+    simp [List.append_assoc]
+
+theorem Lang.prod_single (L : Lang) (w : List Char) : Lang.prod [L] w ↔ L w := by
+  simp only [Lang.prod, Lang.concat]
+  constructor
+  · rintro ⟨u, v, rfl, hu, rfl⟩; simpa using hu
+  · intro h; exact ⟨w, [], by simp, h, rfl⟩
+
+/-- **C01 (language of a block of segments, under the engine laws).** A block `seg₁ ##!=> seg₂ ##!=> … segₖ ##!=>`
+    completes to one line, and that line denotes exactly the words `w₁w₂…wₖ` with each `wᵢ` matched by some entry of
+    `segᵢ` — for any number of segments and entries. -/
+theorem C01_segments_language (E : Engine) (S : EngineSem E) (cfg : Config) (st : Stash)
+    (segs : List (List Bytes)) (joins : List Bytes) (hk : segs ≠ [])
+    (hent : ∀ seg ∈ segs, seg ≠ [] ∧ ∀ e ∈ seg, isEntry e = true)
+    (hj : Zip (fun seg j => E.join seg = .ok j) segs joins) :
+    ∃ st' q line Ls,
+      evalItems E cfg st (.assemble [] []) (segmentItems segs) = .ok (st', q) ∧
+      procComplete E q = .ok [line] ∧
+      Zip (fun seg L => ∃ Es, seg.mapM S.den = some Es ∧ L = Lang.union Es) segs Ls ∧
+      ∃ D, S.den line = some D ∧ ∀ w, D w ↔ Lang.prod Ls w := by
+  have hev := evalItems_segments E cfg st segs joins [] hent hj
+  simp only [List.nil_append] at hev
+  -- what each join denotes
+  have hden : ∃ Ls, joins.mapM S.den = some Ls ∧
+      Zip (fun seg L => ∃ Es, seg.mapM S.den = some Es ∧ L = Lang.union Es) segs Ls := by
+    clear hev hk hent
+    induction hj with
+    | nil => exact ⟨[], rfl, .nil⟩
+    | @cons seg j segs' joins' hseg _ ih =>
+      obtain ⟨Ls, h1, h2⟩ := ih
+      obtain ⟨Es, e1, e2⟩ := S.join_den seg j hseg
+      refine ⟨Lang.union Es :: Ls, ?_, .cons ⟨Es, e1, rfl⟩ h2⟩
+      simp [List.mapM_cons, e2, h1]
+  obtain ⟨Ls, hLs, hrel⟩ := hden
+  have hjne : joins ≠ [] := by
+    cases hj with
+    | nil => exact absurd rfl hk
+    | cons _ _ => simp
+  have hout : ((joins.map group).flatten) ≠ [] := by
+    cases joins with
+    | nil => exact absurd rfl hjne
+    | cons j js => simp [group]
+  have houtE : ((joins.map group).flatten).isEmpty = false := by
+    cases h : (joins.map group).flatten with
+    | nil => exact absurd h hout
+    | cons _ _ => rfl
+  refine ⟨st, .assemble [] ((joins.map group).flatten), group ((joins.map group).flatten), Ls, hev, ?_, hrel, ?_⟩
+  · simp [procComplete, runAssemble, wrapCompleted, houtE, group]
+  · have h1 := S.groups_den joins Ls hLs
+    have h2 := S.groups_den [(joins.map group).flatten] [Lang.prod Ls] (by simp [List.mapM_cons, h1])
+    simp only [List.map_cons, List.map_nil, List.flatten_cons, List.flatten_nil, List.append_nil] at h2
+    exact ⟨_, h2, fun w => Lang.prod_single _ w⟩
+
+/-- non-vacuity: a nested program is well nested and flattens to the expected lines -/
+example : wfItems [.line "a".toList, .block "##!> assemble".toList [.line "b".toList, .line "##!=>".toList, .line "c".toList], .line "d".toList] = true
+    ∧ flattenItems [.line "a".toList, .block "##!> assemble".toList [.line "b".toList, .line "##!=>".toList, .line "c".toList], .line "d".toList]
+      = ["a".toList, "##!> assemble".toList, "b".toList, "##!=>".toList, "c".toList, "##!<".toList, "d".toList] := by decide
+
 end Crs.Props
